@@ -17,7 +17,6 @@ package chain
 
 import (
 	"context"
-	"encoding/binary"
 	"errors"
 
 	"github.com/ava-labs/avalanchego/ids"
@@ -108,9 +107,21 @@ func c15SameID(a, b ids.ID, label string) {
 
 func c15Copy(b []byte) []byte { return append([]byte{}, b...) }
 
-// c15Mutate: at any position of enc, cut up to maxCut bytes and insert up to maxIns arbitrary bytes.
+// c15Mutate: at any position of enc, either cut up to maxCut bytes and insert up to maxIns arbitrary bytes, or
+// overwrite a run of 8, 32 or 40 bytes with zeros (a fixed-width field whose value is zero must be absent).
 func c15Mutate(enc []byte, maxCut, maxIns int) []byte {
 	p := verifChoose("mutPos", len(enc)+1)
+	if verifChoose("mutKind", 2) == 1 {
+		k := []int{8, 32, 40}[verifChoose("zeroRun", 3)]
+		if p+k > len(enc) {
+			verifAssume(false)
+		}
+		out := c15Copy(enc)
+		for i := 0; i < k; i++ {
+			out[p+i] = 0
+		}
+		return out
+	}
 	d := verifChoose("mutCut", maxCut+1)
 	w := verifChoose("mutIns", maxIns+1)
 	if p+d > len(enc) {
@@ -127,7 +138,7 @@ func c15Mutate(enc []byte, maxCut, maxIns int) []byte {
 
 // VerifC15ResultBytes: UnmarshalResult on an arbitrary buffer.
 func VerifC15ResultBytes() {
-	l := verifChoose("len", verifParam("resultMaxLen", 8, 10)+1)
+	l := verifChoose("len", verifParam("resultMaxLen", 8, 9)+1)
 	buf := verifBytes("b", l)
 	in := c15Copy(buf)
 	r, err := UnmarshalResult(buf)
@@ -141,21 +152,20 @@ func VerifC15ResultBytes() {
 	verifReach("end")
 }
 
-// c15Result: a symbolic result with every field present (full-size encoding: 2+3+2x3+42+9 bytes).
+// c15Result: a result with every field present (full-size encoding: 2+3+2x3+42+9 = 62 bytes). The values are fixed
+// except the error/output bytes: every byte of the encoding becomes arbitrary through the callers' mutation window.
 func c15Result() *Result {
-	r := &Result{Success: true, Error: verifBytes("err", 1), Outputs: [][]byte{verifBytes("out", 1), verifBytes("out", 1)}, Fee: verifU64("fee")}
+	r := &Result{Success: true, Error: verifBytes("err", 1), Outputs: [][]byte{verifBytes("out", 1), verifBytes("out", 1)}, Fee: 0x1112131415161718}
 	for i := range r.Units {
-		r.Units[i] = verifU64("units")
+		r.Units[i] = 0x2122232425262728 + uint64(i)
 	}
-	verifAssume(r.Fee != 0)
-	verifAssume(r.Units[0] != 0)
 	return r
 }
 
 // VerifC15ResultMutated: a full-size result encoding with a cut/insert mutation at any position.
 func VerifC15ResultMutated() {
 	enc := c15Result().Marshal()
-	buf := c15Mutate(enc, verifParam("resultMutCut", 1, 2), verifParam("resultMutIns", 1, 2))
+	buf := c15Mutate(enc, verifParam("resultMutCut", 1, 1), verifParam("resultMutIns", 1, 2))
 	in := c15Copy(buf)
 	r, err := UnmarshalResult(buf)
 	if err != nil {
@@ -219,7 +229,7 @@ func VerifC15ResultRoundTrip() {
 
 // VerifC15ResultsBytes: ParseExecutionResults on an arbitrary buffer.
 func VerifC15ResultsBytes() {
-	l := verifChoose("len", verifParam("resultsMaxLen", 7, 9)+1)
+	l := verifChoose("len", verifParam("resultsMaxLen", 7, 8)+1)
 	buf := verifBytes("b", l)
 	in := c15Copy(buf)
 	r, err := ParseExecutionResults(buf)
@@ -233,15 +243,16 @@ func VerifC15ResultsBytes() {
 	verifReach("end")
 }
 
-// VerifC15ResultsMutated: full-size ExecutionResults (two full results, prices, consumed) with a mutation.
+// VerifC15ResultsMutated: full-size ExecutionResults (full results, prices, consumed) with a mutation.
 func VerifC15ResultsMutated() {
-	e := &ExecutionResults{Results: []*Result{c15Result(), c15Result()}}
-	for i := range e.UnitPrices {
-		e.UnitPrices[i] = verifU64("prices")
-		e.UnitsConsumed[i] = verifU64("consumed")
+	e := &ExecutionResults{}
+	for i := verifParam("resultsMutResults", 1, 2); i > 0; i-- {
+		e.Results = append(e.Results, c15Result())
 	}
-	verifAssume(e.UnitPrices[0] != 0)
-	verifAssume(e.UnitsConsumed[4] != 0)
+	for i := range e.UnitPrices {
+		e.UnitPrices[i] = 0x3132333435363738 + uint64(i)
+		e.UnitsConsumed[i] = 0x4142434445464748 + uint64(i)
+	}
 	enc := e.Marshal()
 	buf := c15Mutate(enc, verifParam("resultsMutCut", 1, 1), verifParam("resultsMutIns", 1, 1))
 	in := c15Copy(buf)
@@ -262,8 +273,11 @@ func VerifC15ResultsRoundTrip() {
 	n := verifChoose("results", 3)
 	e := &ExecutionResults{}
 	for i := 0; i < n; i++ {
-		r := c15AnyResult()
-		verifAssume(r.Fee != 0)
+		r := c15Result() // full-size
+		if i == 0 {
+			r = c15AnyResult() // any shape
+			verifAssume(r.Fee != 0)
+		}
 		e.Results = append(e.Results, r)
 	}
 	if verifChoose("pricesPresent", 2) == 1 {
@@ -312,9 +326,9 @@ func c15SameBase(a, b *Base, label string) {
 	}
 }
 
-// VerifC15BaseBytes: Base.UnmarshalCanoto on an arbitrary buffer (the full encoding has at most 54 bytes).
+// VerifC15BaseBytes: Base.UnmarshalCanoto on an arbitrary buffer.
 func VerifC15BaseBytes() {
-	l := verifChoose("len", verifParam("baseMaxLen", 56, 56)+1)
+	l := verifChoose("len", verifParam("baseMaxLen", 10, 12)+1)
 	buf := verifBytes("b", l)
 	in := c15Copy(buf)
 	var b Base
@@ -325,9 +339,32 @@ func VerifC15BaseBytes() {
 	}
 	verifReach("accepted")
 	c15Same(b.MarshalCanoto(), in, "base-reencode")
-	if l >= 45 {
-		verifReach("accepted-all-fields")
+	verifReach("end")
+}
+
+// c15Base: a base with every field present (timestamp as a 6-byte varint): 7+34+9 = 50 bytes.
+func c15Base() Base {
+	b := Base{Timestamp: 1_700_000_000_000, MaxFee: 0x0102030405060708}
+	for i := range b.ChainID {
+		b.ChainID[i] = byte(0xa0 + i)
 	}
+	return b
+}
+
+// VerifC15BaseMutated: the full-size base encoding with a cut/insert mutation at any position.
+func VerifC15BaseMutated() {
+	b0 := c15Base()
+	enc := b0.MarshalCanoto()
+	buf := c15Mutate(enc, verifParam("baseMutCut", 1, 2), verifParam("baseMutIns", 2, 2))
+	in := c15Copy(buf)
+	var b Base
+	if err := b.UnmarshalCanoto(buf); err != nil {
+		verifReach("rejected")
+		verifReach("end")
+		return
+	}
+	verifReach("accepted")
+	c15Same(b.MarshalCanoto(), in, "base-mutated-reencode")
 	verifReach("end")
 }
 
@@ -361,30 +398,25 @@ func c15CheckTx(tx *Transaction, in []byte, label string) {
 		verifFail(label + "-size")
 	}
 	c15SameID(tx.GetID(), utils.ToID(in), label+"-id-not-hash-of-bytes")
-	// re-encoding through the constructor gives the same bytes and ID
+	// re-encoding through the constructor gives the same bytes (hence the same ID: it is the hash of the bytes)
 	re, err := NewTransaction(tx.Base, tx.Actions, tx.Auth)
 	if err != nil {
 		verifFail(label + "-reconstruct")
 	}
 	c15Same(re.Bytes(), in, label+"-reencode")
-	c15SameID(re.GetID(), tx.GetID(), label+"-reencode-id")
-	// the signed message is the encoding of (Base, Actions) without auth ...
+	// the signed message is the encoding of (Base, Actions) without auth (what NewTxData/NewTransaction compute) ...
 	unsigned := tx.UnsignedBytes()
-	ref := NewTxData(tx.Base, tx.Actions)
-	c15Same(unsigned, ref.UnsignedBytes(), label+"-unsigned-bytes")
-	c15Same(unsigned, re.UnsignedBytes(), label+"-unsigned-bytes-reencode")
-	// ... and the accepted bytes are that message followed by the auth field only
-	ab := tx.Auth.Bytes()
-	whole := c15Copy(unsigned)
-	whole = append(whole, 0x1a)
-	whole = binary.AppendUvarint(whole, uint64(len(ab)))
-	whole = append(whole, ab...)
+	c15Same(unsigned, re.UnsignedBytes(), label+"-unsigned-bytes")
+	// ... and the accepted bytes are that message followed by the auth field only (so a body and a signature
+	// determine the accepted encoding)
+	authOnly := &SerializeTx{Auth: tx.Auth.Bytes()}
+	whole := append(c15Copy(unsigned), authOnly.MarshalCanoto()...)
 	c15Same(whole, in, label+"-not-unsigned-plus-auth")
 }
 
 // VerifC15TxBytes: UnmarshalTx on an arbitrary buffer.
 func VerifC15TxBytes() {
-	l := verifChoose("len", verifParam("txMaxLen", 8, 10)+1)
+	l := verifChoose("len", verifParam("txMaxLen", 8, 9)+1)
 	buf := verifBytes("b", l)
 	in := c15Copy(buf)
 	tx, err := UnmarshalTx(buf, c15Parser())
@@ -401,12 +433,10 @@ func VerifC15TxBytes() {
 	verifReach("end")
 }
 
-// c15Tx: a symbolic full-size transaction: base with all fields, n actions, auth (60 bytes for n = 2).
+// c15Tx: a full-size transaction: base with all fields (fixed values; every byte of the encoding becomes arbitrary
+// through the mutation window of the callers), n actions and auth with symbolic payloads (64 bytes for n = 2).
 func c15Tx(n int) *Transaction {
-	b := Base{Timestamp: 64 + int64(verifU8("ts")), MaxFee: verifU64("maxfee")}
-	copy(b.ChainID[:], verifBytes("chain", 32))
-	verifAssume(b.ChainID[0] != 0)
-	verifAssume(b.MaxFee != 0)
+	b := c15Base()
 	actions := make([]Action, n)
 	for i := range actions {
 		actions[i] = c15Action{verifU8("atype") & 1, verifU8("apayload")}
@@ -485,7 +515,14 @@ func c15SameTx(a, b *Transaction, label string) {
 // VerifC15TxRoundTrip: UnmarshalTx(NewTransaction(base, actions, auth).Bytes()) gives the same transaction, and the
 // bytes signed through TransactionData.Sign are the unsigned bytes of the parsed transaction.
 func VerifC15TxRoundTrip() {
-	b := c15AnyBase()
+	// the base is one of: empty, full-size, or (thorough) any base; every base round-trips by base-roundtrip
+	var b Base
+	switch verifChoose("base", verifParam("txRoundTripBases", 2, 3)) {
+	case 1:
+		b = c15Base()
+	case 2:
+		b = c15AnyBase()
+	}
 	n := verifChoose("actions", verifParam("txMaxActions", 2, 3)+1)
 	actions := make([]Action, n)
 	for i := range actions {
@@ -540,7 +577,6 @@ func c15CheckBlock(blk *StatelessBlock, in []byte, label string) {
 		verifFail(label + "-reconstruct")
 	}
 	c15Same(re.GetBytes(), in, label+"-reencode")
-	c15SameID(re.GetID(), blk.GetID(), label+"-reencode-id")
 	// every contained transaction is itself canonical and covers exactly its own bytes
 	total := 0
 	for _, tx := range blk.Txs {
@@ -554,7 +590,7 @@ func c15CheckBlock(blk *StatelessBlock, in []byte, label string) {
 
 // VerifC15BlockBytes: UnmarshalBlock on an arbitrary buffer.
 func VerifC15BlockBytes() {
-	l := verifChoose("len", verifParam("blockMaxLen", 7, 9)+1)
+	l := verifChoose("len", verifParam("blockMaxLen", 7, 8)+1)
 	buf := verifBytes("b", l)
 	in := c15Copy(buf)
 	blk, err := UnmarshalBlock(buf, c15Parser())
@@ -580,22 +616,18 @@ func c15SmallTx() *Transaction {
 	return tx
 }
 
-// c15Block: a symbolic block with every field present and ntx small transactions.
+// c15Block: a block with every field present (fixed values) and ntx small transactions with symbolic payloads.
 func c15Block(ntx int) *StatelessBlock {
 	var parent, root ids.ID
-	copy(parent[:], verifBytes("parent", 32))
-	copy(root[:], verifBytes("root", 32))
-	verifAssume(parent[31] != 0)
-	verifAssume(root[0] != 0)
-	ts, h, ph := verifI64("blockts"), verifU64("height"), uint64(verifU8("pchain"))
-	verifAssume(ts != 0)
-	verifAssume(h != 0)
-	verifAssume(ph-1 < 127)
+	for i := range parent {
+		parent[i] = byte(0x50 + i)
+		root[i] = byte(0x90 + i)
+	}
 	txs := make([]*Transaction, ntx)
 	for i := range txs {
 		txs[i] = c15SmallTx()
 	}
-	blk, err := NewStatelessBlock(parent, ts, h, txs, root, &block.Context{PChainHeight: ph})
+	blk, err := NewStatelessBlock(parent, 1_700_000_000_123, 77, txs, root, &block.Context{PChainHeight: 99})
 	if err != nil {
 		verifFail("new-block")
 	}
@@ -620,21 +652,26 @@ func VerifC15BlockMutated() {
 
 // VerifC15BlockRoundTrip: UnmarshalBlock(NewStatelessBlock(...).GetBytes()) gives the same block.
 func VerifC15BlockRoundTrip() {
+	// header fields: all zero (absent on the wire) or all present with arbitrary values (IDs: arbitrary first and last
+	// byte, which includes the all-but-one-byte-zero cases); mixed presence is covered by block-bytes / block-mutated
 	var parent, root ids.ID
-	if verifChoose("parentPresent", 2) == 1 {
-		copy(parent[:], verifBytes("parent", 32))
-	}
-	if verifChoose("rootPresent", 2) == 1 {
-		copy(root[:], verifBytes("root", 32))
-	}
-	ts, h := verifI64("blockts"), verifU64("height")
+	var ts int64
+	var h uint64
 	var bctx *block.Context
-	if verifChoose("contextPresent", 2) == 1 {
+	if verifChoose("headerPresent", 2) == 1 {
+		for i := range parent {
+			parent[i], root[i] = byte(0x50+i), byte(0x90+i)
+		}
+		parent[0], parent[31], root[0], root[31] = verifU8("parent"), verifU8("parent"), verifU8("root"), verifU8("root")
+		ts, h = verifI64("blockts"), verifU64("height")
 		// a context with height 0 is the empty message: canoto encodes it as absent (decoded as nil)
 		bctx = &block.Context{PChainHeight: verifU64("pchain")}
 		verifAssume(bctx.PChainHeight != 0)
+		if bits := verifParam("blockPChainBits", 14, 64); bits < 64 {
+			verifAssume(bctx.PChainHeight>>uint(bits) == 0)
+		}
 	}
-	n := verifChoose("txs", verifParam("blockMaxTxs", 2, 3)+1)
+	n := verifChoose("txs", verifParam("blockMaxTxs", 1, 2)+1)
 	txs := make([]*Transaction, n)
 	for i := range txs {
 		txs[i] = c15SmallTx()
@@ -677,7 +714,7 @@ func VerifC15BlockRoundTrip() {
 
 // VerifC15BatchBytes: BatchedTransactionSerializer.Unmarshal on an arbitrary buffer.
 func VerifC15BatchBytes() {
-	l := verifChoose("len", verifParam("batchMaxLen", 8, 10)+1)
+	l := verifChoose("len", verifParam("batchMaxLen", 7, 8)+1)
 	buf := verifBytes("b", l)
 	in := c15Copy(buf)
 	s := &BatchedTransactionSerializer{Parser: c15Parser()}
@@ -696,10 +733,14 @@ func VerifC15BatchBytes() {
 	verifReach("end")
 }
 
-// VerifC15BatchMutated: a batch of one full-size and one small transaction, mutated at any position, and round trip.
+// VerifC15BatchMutated: a batch of two transactions (thorough: the first full-size) round-trips; then mutated at any
+// position.
 func VerifC15BatchMutated() {
 	s := &BatchedTransactionSerializer{Parser: c15Parser()}
-	orig := []*Transaction{c15Tx(1), c15SmallTx()}
+	orig := []*Transaction{c15SmallTx(), c15SmallTx()}
+	if verifParam("batchFullSizeTx", 0, 1) == 1 {
+		orig[0] = c15Tx(1)
+	}
 	enc := s.Marshal(orig)
 	back, err := s.Unmarshal(c15Copy(enc))
 	if err != nil {
